@@ -68,6 +68,8 @@ type SliceV struct {
 	Heap          bool
 	Ref           *Term // Int; 0 == nil slice
 	Off, Len, Cap *Term
+	// provenance: the engine object this heap slice was copied from (freshness questions only)
+	Origin *Object
 }
 
 // StrV: concrete string, symbolic byte array (Arr[Off..Off+Len)), or rope of pieces.
